@@ -105,7 +105,13 @@ fn cond_shape(s: &Value, selftest: bool) -> Vec<Value> {
     let bad_class = ["", "wires_cap", "final_poly", "init_leaf:1"];
     let mut sampled = 0usize;
     let sample = s["sample"].as_u64().unwrap_or(2) as usize;
-    for (k, combo) in s["combos"].as_array().cloned().unwrap_or_default().iter().enumerate() {
+    // binding self-test: the first `selftest` combinations are repeated at the end with the OPPOSITE condition assigned
+    let mut all_combos: Vec<(Value, bool)> = s["combos"].as_array().cloned().unwrap_or_default().into_iter().map(|c| (c, selftest)).collect();
+    let nself = s["selftest"].as_u64().unwrap_or(0) as usize;
+    let extra: Vec<(Value, bool)> = all_combos.iter().take(nself).map(|(c, _)| (c.clone(), true)).collect();
+    all_combos.extend(extra);
+    for (k, (combo, selftest)) in all_combos.iter().enumerate() {
+        let selftest = *selftest;
         // make a pair concrete
         let mut mk = |p: &Value| -> Option<(PW, VD)> {
             let base = match p["owner"].as_str()? {
@@ -152,8 +158,8 @@ fn cond_shape(s: &Value, selftest: bool) -> Vec<Value> {
         let cv = run_outer(&outer, &constants, fill);
         let mut row = json!({"id": id, "combo": k, "p0": combo["p0"], "p1": combo["p1"], "cond": c, "expect": combo["expect"],
             "native_selected": nat, "native_detail": nd, "native_other": nat_other, "assignable": cv.assignable, "circuit": cv.accepted,
-            "stage": cv.stage, "detail": cv.detail});
-        if cv.accepted && sampled < sample {
+            "stage": cv.stage, "detail": cv.detail, "selftest": selftest});
+        if cv.accepted && sampled < sample && !selftest {
             sampled += 1;
             let (proved, verified, pis, od) = outer_prove_verify(&outer, fill);
             let want: Vec<u64> = chosen_p.public_inputs.iter().map(|x| x.to_canonical_u64()).collect();
